@@ -153,3 +153,55 @@ Fixpoint run (s : store) (ops : list op) : store * list obs :=
     let '(s1, ob) := step s o in
     let '(s2, obs) := run s1 rest in (s2, ob :: obs)
   end.
+
+(* ------------------------------------------------------------------ *)
+(* neutrino.go: the public entries ChainService.BanPeer / UnbanPeer /
+   IsBanned.  Each parses the caller's address string (ParseIPNet addr nil)
+   and goes straight to the ban store: the layer has no state of its own.
+   [parsed] is net.ParseIP's result for the host part of the address ([] if
+   the host is not an IP literal: host names, .onion).  IsBanned fails open
+   (answers false) when the address does not parse or the store errs; the
+   disconnect BanPeer also performs and the connection UnbanPeer opens are
+   outside this model (netsim scenarios). *)
+Inductive pop :=
+| PBan (parsed : bytes) (reason : Z) (now dur : Z)
+| PUnban (parsed : bytes)
+| PIsBanned (parsed : bytes) (now : Z).
+
+Inductive pobs :=
+| PErr
+| POk
+| PAns (banned : bool).
+
+Definition pstep (s : store) (o : pop) : store * pobs :=
+  match o with
+  | PBan p r now dur =>
+    match parse_ipnet p None with
+    | Some n =>
+      let '(s', ob) := step s (Ban n r now dur) in
+      (s', match ob with OOk => POk | _ => PErr end)
+    | None => (s, PErr)
+    end
+  | PUnban p =>
+    match parse_ipnet p None with
+    | Some n =>
+      let '(s', ob) := step s (Unban n) in
+      (s', match ob with OOk => POk | _ => PErr end)
+    | None => (s, PErr)
+    end
+  | PIsBanned p now =>
+    match parse_ipnet p None with
+    | Some n =>
+      let '(s', ob) := step s (Status n now) in
+      (s', match ob with OStatus b _ _ => PAns b | _ => PAns false end)
+    | None => (s, PAns false)
+    end
+  end.
+
+Fixpoint prun (s : store) (ops : list pop) : store * list pobs :=
+  match ops with
+  | [] => (s, [])
+  | o :: rest =>
+    let '(s1, ob) := pstep s o in
+    let '(s2, obs) := prun s1 rest in (s2, ob :: obs)
+  end.
